@@ -15,6 +15,7 @@ HERE = os.path.dirname(os.path.abspath(__file__))
 HARNESS = os.path.join(HERE, "..", "harness", "embed_c13.c")
 sys.path.insert(0, os.path.join(HERE, "..", "harness"))
 import workloads_c13 as WL
+import scenarios_c13 as SC
 from gen import c13_statics
 
 # hook-less ThreadSanitizer build: the verification hooks keep process-wide counters of their own (verif_alloc_no,
@@ -125,6 +126,230 @@ def _diagnose(table):
     return probs
 
 
+
+# ------------------------------------------------------------------ round 2: scripted scenarios (embed_c13 ops)
+
+def _ops(emb, d, script, name, timeout=120, tsan=False):
+    path = os.path.join(_specdir(), name + ".ops")
+    with open(path, "w") as fh:
+        fh.write(script)
+    cmd = [emb, "ops", path, os.path.join(_specdir(), name + ".cap")]
+    try:
+        r = subprocess.run(cmd, capture_output=True, text=True, errors="replace", env=_env(d), timeout=timeout, stdin=subprocess.DEVNULL)
+        rc, out, err = r.returncode, r.stdout, r.stderr
+    except subprocess.TimeoutExpired as e:
+        rc, out, err = "timeout", (e.stdout or b"").decode("utf8", "replace") if isinstance(e.stdout, bytes) else (e.stdout or ""), "timeout after %ds" % timeout
+    replay = "CHIBI_IGNORE_SYSTEM_PATH=1 CHIBI_MODULE_PATH=%s/lib LD_LIBRARY_PATH=%s %s </dev/null" % (d, d, " ".join(shlex.quote(c) for c in cmd))
+    return rc, out, err, replay
+
+
+def _resources(ctx, emb, d, exe):
+    """(A) process-wide OS resources: extracted model coq/C13/Res.v vs the implementation, operation by operation"""
+    rng = ctx.rng
+    tmp = os.path.join(_specdir(), "files")
+    os.makedirs(tmp, exist_ok=True)
+    plans = [(3, 30), (4, 45), (5, 60), (3, 40), (6, 70)] if not ctx.thorough else [(rng.randrange(2, 9), rng.randrange(30, 140)) for _ in range(40)]
+    nl = len(SC.RES_LIBS)
+    for n, (nctx, nops) in enumerate(plans):
+        ops, script, meta = SC.resources(rng, tmp, nctx, nops, "r%d" % n)
+        lines = ctx.run_model(exe, ["rtrace 0 %d %s" % (nl, ";".join(ops)), "rtrace 1 %d %s" % (nl, ";".join(ops))])
+        traces = []
+        for ln in lines[:2]:
+            tr = []
+            for item in ln.split(";"):
+                a, b, c = item.split("/")
+                tr.append((a == "1", [int(x) for x in b.split(",") if x], [int(x) for x in c.split(",") if x]))
+            traces.append(tr)
+        if len(traces) != 2 or len(traces[1]) != len(ops):
+            ctx.broken("resource-model:driver", "model driver answered %r" % lines[:2])
+            return
+        rc, out, err, rp = _ops(emb, d, script, "res%d" % n)
+        probs = SC.judge_resources(traces[1], meta, out, nl)
+        if rc != 0 and not any(p["sig"] == "crash:ops" for p in probs):
+            probs.append(dict(kind="violation", sig="crash:ops", at=len(meta), detail="rc=%s %s" % (rc, err[-300:])))
+        stays = sum(1 for p in probs if p["kind"] == "note")
+        for p in probs:
+            hist = " ; ".join(m["op"] for m in meta[:p["at"] + 1])
+            if p["kind"] == "violation":
+                ctx.violation(p["sig"], input="operations (model syntax, coq/C13/Res.v): " + hist, expected="the trace of the extracted model",
+                              observed=p["detail"], replay=rp, script=script)
+            elif p["kind"] == "broken":
+                ctx.broken(p["sig"], p["detail"] + " | operations: " + hist, replay=rp, script=script)
+        for m in meta:
+            ctx.count(1, key=("res", n, m["op"], m["first_line"]), nontrivial=True)
+            if not any(p["kind"] != "note" for p in probs):
+                ctx.cov["traces_validated_against_impl"] += 1
+        if n == 0:
+            ctx.sample(dict(kind="resources", operations=";".join(ops)[:300], model_trace_tail=lines[1][-160:], libraries_never_unmapped=bool(stays)))
+    ctx.note("resource scenarios: %d (contexts created as doc/chibi.scrbl shows: standard ports with no_close=1, and with 0 on private dup'ed descriptors); "
+             "every operation compared with the extracted model (success, /proc/self/fd, /proc/self/maps, bytes that reached descriptors 1/2)" % len(plans))
+
+
+_SO_LIBS = None
+# libraries the always-on sample of the differential search leaves out (terminals, sockets, processes, other platforms,
+# compiler internals); a library whose static breaks the inventory obligation is searched regardless
+DIFF_SKIP = re.compile(r"net|pty|stty|process|emscripten|win32|heap-stats|optimize|disasm|profile|system|filesystem|\(chibi io\)|\(chibi ast\)|weak|json|crypto|srfi 18\)|srfi 39")
+
+
+def _so_libs(d):
+    """{shared object relative to the build: [library names that include-shared it]}"""
+    global _SO_LIBS
+    if _SO_LIBS is None:
+        m = {}
+        for dp, dn, fn in os.walk(os.path.join(d, "lib")):
+            for f in fn:
+                if not f.endswith(".sld"):
+                    continue
+                p = os.path.join(dp, f)
+                txt = open(p, errors="replace").read()
+                for so in re.findall(r'\(include-shared\s+"([^"]+)"', txt):
+                    rel = os.path.relpath(os.path.join(dp, so + ".so"), d)
+                    name = "(" + " ".join(os.path.relpath(p, os.path.join(d, "lib"))[:-4].split(os.sep)) + ")"
+                    m.setdefault(rel, []).append(name)
+        _SO_LIBS = m
+    return _SO_LIBS
+
+
+def _exports(d, libs):
+    """{library: [exported names bound to procedures]} (asked of the module system in a scout process)"""
+    prog = ("(import (scheme base) (scheme write) (scheme eval) (only (meta) module-exports load-module))\n"
+            "(for-each (lambda (l) (guard (e (#t (write (list l 'unavailable)) (newline)))\n"
+            "  (let* ((ex (module-exports (load-module l))) (env (environment l)))\n"
+            "    (write (cons l (let lp ((ls ex) (acc '())) (if (null? ls) (reverse acc)\n"
+            "       (let ((name (if (pair? (car ls)) (cdr (car ls)) (car ls))))\n"
+            "         (lp (cdr ls) (if (guard (e (#t #f)) (procedure? (eval name env))) (cons name acc) acc)))))))\n"
+            "    (newline)))) '(%s))\n" % " ".join(libs))
+    path = os.path.join(_specdir(), "scout.scm")
+    open(path, "w").write(prog)
+    out = {}
+    try:
+        r = B.run_chibi(d, [path], timeout=120)
+    except subprocess.TimeoutExpired:
+        return out
+    for line in r.stdout.split("\n"):
+        m = re.match(r"\((\([^)]*\))\s*(.*)\)$", line.strip())
+        if m and "unavailable" not in m.group(2):
+            out[m.group(1)] = m.group(2).split()
+    return out
+
+
+def _diffsearch(ctx, emb, d, libs, why, embt=None, dt=None):
+    """(B) two parent-less contexts with different prior state import the library and call its exports; every
+    difference from the single-context baselines is a concrete failing program"""
+    rng = ctx.rng
+    ex = _exports(d, libs)
+    found = 0
+    for lib in libs:
+        names = [n for n in ex.get(lib, []) if not SC.DENY.search(n)]
+        if not names:
+            ctx.note("diffsearch %s: no callable exports (%s)" % (lib, "unavailable" if lib not in ex else "all filtered"))
+            continue
+        if len(names) > 40:
+            names = sorted(rng.sample(names, 40))
+        ka, kb = rng.choice([(0, 3), (0, 5), (2, 0), (1, 4)])
+        sa, sb = rng.choice([(0, 40), (25, 0), (3, 300)])
+        tag = re.sub(r"\W+", "-", lib).strip("-")
+        for pool in (None, SC.POOL_MILD):
+            two, pos_two, singA, posA, singB, posB = SC.diff_scripts(lib, names, ka, kb, sa, sb, pool)
+            runs = {"a1": _ops(emb, d, singA, "diff-%s-a1" % tag, timeout=90)}
+            if runs["a1"][0] == 0:
+                break
+            ctx.note("diffsearch %s: the single-context baseline itself dies (rc %s) when its exports get the %s argument pool" % (lib, runs["a1"][0], "mild" if pool else "full"))
+        if runs["a1"][0] != 0:
+            continue
+        import time as _t
+        t0 = _t.time()
+        for nm, sc in (("b1", singB), ("two", two)):
+            runs[nm] = _ops(emb, d, sc, "diff-%s-%s" % (tag, nm), timeout=90)
+        _t.sleep(max(0.0, 1.2 - (_t.time() - t0)))      # clock-seeded results (srfi 27) must differ between the two baselines
+        runs["a2"] = _ops(emb, d, singA, "diff-%s-a2" % tag, timeout=90)
+        if any(runs[k][0] != 0 for k in ("a1", "a2", "b1")):
+            ctx.note("diffsearch %s: single-context baseline does not complete (rc %s); skipped" % (lib, [runs[k][0] for k in ("a1", "a2", "b1")]))
+            continue
+
+        def results(run, positions):
+            O, C, ended = SC.parse_ops_output(run[1])
+            return [SC.split_results(O.get(p, ("", "", ""))[2]) for p in positions], O
+        a1, _ = results(runs["a1"], posA)
+        a2, _ = results(runs["a2"], posA)
+        b1, _ = results(runs["b1"], posB)
+        unstable = {(ph, x[0]) for ph, (r1, r2) in enumerate(zip(a1, a2)) for x, y in zip(r1, r2) if x != y}
+        unstable_names = {n for _, n in unstable}
+        rc, out, err, rp = runs["two"]
+        tA, O2 = results(runs["two"], pos_two["A"])
+        tB, _ = results(runs["two"], pos_two["B"])
+        ncall = 0
+        diffs = []
+        if rc != 0:
+            diffs.append(("crash", "rc=%s %s" % (rc, err[-300:]), "", ""))
+        for who, base, got in (("A", a1, tA), ("B", b1, tB)):
+            for ph, (rb, rg) in enumerate(zip(base, got)):
+                if len(rb) != len(rg) and rc == 0:
+                    diffs.append(("%s phase %d" % (who, ph + 1), "number of results", len(rb), len(rg)))
+                    continue
+                for x, y in zip(rb, rg):
+                    ncall += 1
+                    kind_differs = x[1] != y[1] or (x[1] == "ERR" and x[2] != y[2])
+                    if x[0] == y[0] and (kind_differs or (x[2] != y[2] and x[0] not in unstable_names)):
+                        if kind_differs and x[0] in unstable_names and x[1] != "ERR" and y[1] != "ERR":
+                            continue
+                        diffs.append(("%s phase %d %s" % (who, ph + 1, x[0]), "%s|%s" % x[1:], "%s|%s" % y[1:], kind_differs))
+        for ln in (13, 14):
+            if O2.get(ln, ("", "", "ok"))[2] != "ok":
+                diffs.append(("heap audit line %d" % ln, "ok", O2[ln][2], True))
+        ctx.count(ncall, key=("diffsearch", lib, ka, kb, sa, sb), nontrivial=True)
+        hard = [x for x in diffs if x[0] == "crash" or x[3] is True or x[1] == "number of results"]
+        soft = [x for x in diffs if x not in hard]
+        if soft and not hard:
+            # value-only differences: confirm by running the two-context script again (clock / entropy dependent values)
+            rc2, out2, _, _ = _ops(emb, d, two, "diff-%s-two2" % tag, timeout=90)
+            O3, _, _ = SC.parse_ops_output(out2)
+            again = {(w, i): SC.split_results(O3.get(p, ("", "", ""))[2]) for w in ("A", "B") for i, p in enumerate(pos_two[w])}
+            first = {(w, i): r for w, got in (("A", tA), ("B", tB)) for i, r in enumerate(got)}
+            soft = [x for x in soft if all(dict((c[0], c) for c in again.get(k, [])).get(x[0].split(" ")[-1]) == dict((c[0], c) for c in first[k]).get(x[0].split(" ")[-1])
+                                           for k in first if ("%s phase %d" % (k[0], k[1] + 1)) in x[0])]
+        for x in (hard + soft)[:6]:
+            found += 1
+            call = x[0].split(" ")[-1]
+            ctx.violation("diffsearch:%s:%s" % (lib, re.sub(r"[#@].*$", "", call)), input="two parent-less contexts, A after %d record types / %d symbols, B after %d / %d, both (import %s); then %s" % (ka, sa, kb, sb, lib, x[0]),
+                          expected="as in a single context: %s" % (x[1],), observed=str(x[2])[:400], reason=why, replay=rp, script=two)
+        if not diffs:
+            ctx.cov["traces_validated_against_impl"] += 1
+        # concurrently: the same two programs on 4 OS threads (and under ThreadSanitizer when asked)
+        wa = " ".join([SC.shift_text(ka, sa), SC.HELPERS, "(import %s)" % lib, SC.use_text(names, 1, pool)])
+        wb = " ".join([SC.shift_text(kb, sb), SC.HELPERS, "(import %s)" % lib, SC.use_text(names, 1, pool)])
+        works = {0: wa, 1: wb}
+        th = [(0, 0, [0, 1]), (0, 200, [1, 0]), (1 << 20, 0, [0, 0]), (0, 0, [1, 1])]
+        spec = _spec_text(works, th)
+        for label, e_, d_, ts in (("concurrent", emb, d, False),) + ((("concurrent-tsan", embt, dt, True),) if embt else ()):
+            rc, out, err, rp = _run(e_, d_, "run", spec, "diffc-%s-%s" % (tag, label), timeout=200, tsan=ts)
+            R = _parse_R(out)
+            if rc != 0:
+                ctx.violation("diffsearch:%s:%s:crash" % (lib, label), input=spec[:2000], expected="exit 0", observed="rc=%s %s" % (rc, err[-400:]), reason=why, replay=rp, spec=spec)
+                continue
+            for t, (h, j, ids) in enumerate(th):
+                for k, i in enumerate(ids):
+                    got = SC.split_results(R.get((t, k), (0, "", "", ""))[3])
+                    base = (a1 if i == 0 else b1)[0]
+                    ctx.count(1, key=("diffsearch", label, lib, t, k), nontrivial=True)
+                    bad = [(x, y) for x, y in zip(base, got) if x[0] == y[0] and (x[1] != y[1] or (x[1] == "ERR" and x[2] != y[2])) and
+                           not (x[0] in unstable_names and x[1] != "ERR" and y[1] != "ERR")]
+                    if len(got) != len(base):
+                        bad.append((("results", len(base), ""), ("results", len(got), "")))
+                    if R.get((t, k), (0, "ok"))[1] != "ok":
+                        bad.append((("heap-audit", "ok", ""), ("heap-audit", R[(t, k)][1], "")))
+                    for x, y in bad[:2]:
+                        found += 1
+                        ctx.violation("diffsearch:%s:%s:%s" % (lib, label, re.sub(r"[#@].*$", "", x[0])), input="4 OS threads, contexts with different prior state, all (import %s); call %s" % (lib, x[0]),
+                                      expected="%s|%s" % x[1:], observed="%s|%s" % y[1:], reason=why, replay=rp, spec=spec)
+            if ts:
+                for rep in _tsan_reports(err):
+                    found += 1
+                    ctx.violation("tsan:%s:%s" % (rep["kind"].replace(" ", "-"), rep["func"]), input=spec[:2000], expected="no report from ThreadSanitizer",
+                                  observed=rep["text"], location=rep["location"], reason=why, replay=rp + "   # TSAN build", spec=spec)
+    return found
+
+
 # ------------------------------------------------------------------ the check
 
 def run(ctx):
@@ -163,6 +388,17 @@ def run(ctx):
 
     # ---------------------------------------------------------------- (K) harness
     emb = B.cc_embed(d, HARNESS, os.path.join(d, "embed_c13"))
+    # (K inner, round 2) process-wide OS resources: extracted model vs implementation, operation by operation
+    exe = ctx.extract("C13")
+    if exe is not None:
+        _resources(ctx, emb, d, exe)
+    # libraries whose shared object holds a static the allow-list does not cover: failing-input search below
+    so_libs = _so_libs(d)
+    suspects = {}
+    for pr in probs:
+        rel = pr["static"].split(":")[0]
+        for lib in so_libs.get(rel, []):
+            suspects.setdefault(lib, []).append("%s: %s" % (pr["static"], pr["problem"]))
     nW = 26 if not ctx.thorough else 52
     wl = WL.make(rng, nW)
     works = {i: t for i, (n, t) in enumerate(wl)}
@@ -296,6 +532,14 @@ def run(ctx):
             ctx.violation("tsan:%s:%s" % (rep["kind"].replace(" ", "-"), rep["func"]), input=spec, expected="no report from ThreadSanitizer",
                           observed=rep["text"], location=rep["location"], threads=T, replay=rp + "   # TSAN build", spec=spec)
     ctx.note("ThreadSanitizer runs: %d, reports: %d" % (len(tplans), nrep))
+    # (B) differential search: always for a sample of the C-backed libraries, and (with ThreadSanitizer) for every
+    # library whose shared object broke the inventory obligation
+    cand = sorted({l for so, ls in so_libs.items() for l in ls if not DIFF_SKIP.search(l)})
+    sample = cand if ctx.thorough else rng.sample(cand, min(2, len(cand)))
+    if suspects:
+        n = _diffsearch(ctx, emb, d, sorted(suspects), "inventory obligation: " + "; ".join(sum(suspects.values(), []))[:600], embt, dt)
+        ctx.note("differential search for %s (static not covered by the allow-list): %d failing program(s)" % (sorted(suspects), n))
+    _diffsearch(ctx, emb, d, [l for l in sample if l not in suspects], "sample")
     if ctx.thorough:
         # protocol-violation probe (recorded, not a finding): every thread calls sexp_scheme_init() itself
         th = schedule(4, 1, None)
